@@ -6,6 +6,8 @@
 //!  * `headermap` HeaderMap vs HashMap with spills placed between operations
 //!  * `ancestor`  HeaderIndexView::get_ancestor vs the naive parent walk on random header trees
 //!  * `locator`   ActiveChain::{get_ancestor,get_locator} on a SyncShared vs the parent walk
+//!  * `fetch`     BlockFetcher::fetch + the in-flight table on a node with fake peers (headers, requests,
+//!                arrivals, disconnects, time-outs) vs plain sets over the harness's own block tree
 use crate::common::*;
 use crate::{vensure, vfail};
 use ckb_chain::{LonelyBlockHash, OrphanBlockPool};
@@ -27,17 +29,20 @@ use std::sync::atomic::AtomicBool;
 
 #[path = "c17_locator.rs"]
 mod locator;
+#[path = "c17_fetch.rs"]
+mod fetch;
 
 pub fn spec() -> CheckSpec {
     CheckSpec {
         id: "C17",
         level: "exploration",
-        rule: "orphan: op sequence with >=1 release (or expiry) of a multi-level subtree (a returned block whose parent is returned too); inflight: sequence with >=1 prune that releases a timed-out request; headermap: >=1 spill that moved entries to the backend followed by a get of a spilled key; ancestor/locator: base header at height >= 64; distinct = hash of the whole case (structure + ops); exhaustive orphan sequences are counted in evaluations and labels but only a bounded sample of them enters the distinct set (likewise at most 150k descriptors per worker and sub-check)",
+        rule: "orphan: op sequence with >=1 release (or expiry) of a multi-level subtree (a returned block whose parent is returned too); inflight: sequence with >=1 prune that releases a timed-out request; headermap: >=1 spill that moved entries to the backend followed by a get of a spilled key; ancestor/locator: base header at height >= 64; fetch: schedule in which two connected peers have best known headers on different branches whose common part is not fully downloaded AND some fetch returned blocks while other blocks of that peer's branch were in flight from another peer (so they had to be skipped); distinct = hash of the whole case (structure + ops); exhaustive orphan sequences are counted in evaluations and labels but only a bounded sample of them enters the distinct set (likewise at most 150k descriptors per worker and sub-check)",
         assumptions: &[
             "orphan pool: hashes are injective and acyclic (each hash has one fixed parent of lower index or an external root), as block hashes are; a block is expired iff epoch + 6 < tip_epoch (doc comment of clean_expired_blocks, EXPIRED_EPOCH = 6); expiry removes whole leader subtrees and is decided by some child of the leader (mixed-epoch siblings may go either way); releasing a parent that is itself stored may return nothing (callers release leaders only)",
             "in-flight table: 'timed out' = request older than BLOCK_DOWNLOAD_TIMEOUT with number <= tip+20 at prune, or marked slow (mark_slow_block, or inserted at/below the restart number) for longer than division_point().2 (low_time, read from the structure); a peer is 'tracked' iff blocks_iter lists it",
             "header map: values have well-formed epochs (length >= 1, index < length) as every header that passed HeaderVerifier has; only get/contains_key answers are compared",
             "ancestor: hashes are synthetic (unique per node); get_header_view ignores store_first; fast_scanner returns the main-chain header of the requested height iff the current header is on the designated main chain at or below its tip",
+            "fetch: valid blocks only (model-built, always_success cellbase-only blocks, one epoch, constant difficulty, tree depth < 150 so BLOCK_DOWNLOAD_WINDOW and CHECK_POINT_WINDOW are never reached); headers arrive through the SendHeaders handler from a header whose parent the node knows; blocks through the SendBlock handler, each followed by a FIFO barrier through the chain service; the per-peer window (peer_can_fetch_count) and the peers prune drops are read from the table, not modelled; 'lowest missing first' = the blocks of the path genesis..best known header that are neither stored, received nor in flight, ascending, cut at the peer window (IBD mode: only above the height of the unverified tip); last_common_header is checked only after a fetch that got past its early exits (peer window full / peer not ahead of the tip), before that it may date from the peer's former branch; slow-block marks (mark_slow_block) and BLOCK_INVALID blocks are not reached",
             "locator: node with verification switched off (Switch::DISABLE_ALL), header-only forks fed through SyncShared::insert_valid_header; ONE_DAY_BLOCK_NUMBER low-height branch (index > 8192) not reached",
         ],
         workers: |_| 16,
@@ -1884,6 +1889,11 @@ fn run(ctx: &Ctx) {
         locator::run(ctx);
         lap("locator");
     }
+    // 6. the in-flight table as the node uses it (BlockFetcher on a node with fake peers)
+    if want("fetch") {
+        fetch::run(ctx);
+        lap("fetch");
+    }
     HM_SCRATCH.with(|s| *s.borrow_mut() = None);
 }
 
@@ -1895,6 +1905,7 @@ fn replay(ctx: &Ctx, sub: &str, v: &Value) -> Verdict {
         "headermap" | "headermap-public-ctor" => headermap_prop(&from_case::<HeaderMapCase>(v)?, &mut st),
         "ancestor" => tree_prop(&from_case::<TreeCase>(v)?, &mut st),
         "locator" => locator::replay(v, &mut st),
+        "fetch" => fetch::replay(v, &mut st),
         "headermap-race" => Err(Violation::new("replay-format", "headermap-race is schedule-dependent: run VERIF_C17_PARTS=headermap-race instead")),
         _ => Err(Violation::new("replay-format", format!("unknown sub-property {sub}"))),
     }
